@@ -175,16 +175,36 @@ Section Proofs.
   Qed.
 
   (* ------------------------------------------------ oracle plumbing *)
-  Lemma ok_timely_intro states (aw : list traj) o :
+  Notation sat1 := (fun (states : list state) (tr : traj) (j : nat) =>
+                      mem (at_ tr j) states || is_final (at_ tr j)).
+
+  Lemma shown_by_spec p0 states (tr : traj) k :
+    shown_by seqb final p0 states tr k = true <->
+    exists j, p0 <= j <= k /\ sat1 states tr j = true.
+  Proof.
+    unfold shown_by. rewrite existsb_exists. split.
+    - intros [j [Hj H]]. apply in_seq in Hj. exists j. split; [lia | exact H].
+    - intros [j [Hj H]]. exists j. split; [apply in_seq; lia | exact H].
+  Qed.
+
+  Lemma ok_timely_intro p0 states (aw : list traj) o :
     (forall k, k <= horizon aw ->
        sat seqb final states aw k = true -> sat seqb final states aw (S k) = true ->
        ret_by o (S k) = true) ->
-    ok_timely seqb final states aw o = true.
+    (forall k, k <= S (horizon aw) ->
+       (forall tr, In tr aw -> exists j, p0 <= j <= k /\ sat1 states tr j = true) ->
+       ret_by o (S k) = true) ->
+    ok_timely seqb final p0 states aw o = true.
   Proof.
-    intro H. unfold ok_timely. apply forallb_forall. intros k Hk. apply in_seq in Hk.
-    destruct (sat seqb final states aw k) eqn:H1; [|reflexivity].
-    destruct (sat seqb final states aw (S k)) eqn:H2; [|reflexivity].
-    simpl. apply H; [lia | exact H1 | exact H2].
+    intros H G. unfold ok_timely. apply andb_true_iff. split.
+    - unfold ok_timely_all. apply forallb_forall. intros k Hk. apply in_seq in Hk.
+      destruct (sat seqb final states aw k) eqn:H1; [|reflexivity].
+      destruct (sat seqb final states aw (S k)) eqn:H2; [|reflexivity].
+      simpl. apply H; [lia | exact H1 | exact H2].
+    - unfold ok_timely_each. apply forallb_forall. intros k Hk. apply in_seq in Hk.
+      destruct (forallb (fun tr => shown_by seqb final p0 states tr k) aw) eqn:E; [|reflexivity].
+      simpl. apply G; [lia|]. intros tr Htr. apply shown_by_spec.
+      rewrite forallb_forall in E. apply E; exact Htr.
   Qed.
 
   Lemma reached_intro states (tr : traj) t j :
@@ -199,18 +219,21 @@ Section Proofs.
   Theorem entity_clauses r T term fuel (tr : traj) :
     horizon [tr] + 2 <= fuel ->
     (forall t0, T = Some t0 -> t0 + 2 <= fuel) ->
-    clauses seqb final value false (norm final r) T term (Some [tr])
+    clauses seqb final value 0 false (norm final r) T term (Some [tr])
             (entity_wait r T term fuel tr) = [true; true; true; true; true].
   Proof.
     intros Hfuel HT. unfold clauses.
     assert (E1 : ok_truthful seqb false [tr] (entity_wait r T term fuel tr) = true).
     { destruct (entity_shape r T term fuel tr) as [H | [t H]]; rewrite H; [reflexivity|].
       simpl. apply seqb_refl. }
-    assert (E2 : ok_timely seqb final (norm final r) [tr] (entity_wait r T term fuel tr) = true).
-    { apply ok_timely_intro. intros k Hk Hs _. unfold sat in Hs. simpl in Hs.
-      rewrite andb_true_r in Hs.
-      destruct (entity_returns_by r T term fuel tr k) as [t [Ht H]]; [lia | exact Hs |].
-      rewrite H. simpl. apply Nat.leb_le. lia. }
+    assert (E2 : ok_timely seqb final 0 (norm final r) [tr] (entity_wait r T term fuel tr) = true).
+    { apply ok_timely_intro.
+      - intros k Hk Hs _. unfold sat in Hs. simpl in Hs. rewrite andb_true_r in Hs.
+        destruct (entity_returns_by r T term fuel tr k) as [t [Ht H]]; [lia | exact Hs |].
+        rewrite H. simpl. apply Nat.leb_le. lia.
+      - intros k Hk Hall. destruct (Hall tr (or_introl eq_refl)) as [j [Hj Hs]].
+        destruct (entity_returns_by r T term fuel tr j) as [t [Ht H]]; [simpl in *; lia | exact Hs |].
+        rewrite H. simpl. apply Nat.leb_le. lia. }
     assert (E3 : ok_timeout T (entity_wait r T term fuel tr) = true).
     { unfold ok_timeout. destruct T as [[|t0]|]; try reflexivity.
       destruct (entity_timeout r term fuel tr t0) as [t [Ht H]].
@@ -455,6 +478,54 @@ Section Proofs.
     unfold Model.wp_keep. destruct (mem (at_ tr k) states), (is_final (at_ tr k)); simpl; intuition congruence.
   Qed.
 
+  (* ------------------------------------------------ per-entity exit lemmas *)
+  (* every watched task is dropped at SOME poll j, c < j <= k (not necessarily
+     the same one)  ==>  the loop is left by tick k *)
+  Lemma wt_exit_each fuel v T term k : forall (chk : list traj) c,
+    c < k -> k - c <= fuel ->
+    (forall tr, In tr chk -> exists j, c < j <= k /\ wt_keep v j tr = false) ->
+    exists t, c <= t <= k /\ wt_loop fuel v T term chk c = Some t.
+  Proof.
+    induction fuel as [|f IH]; intros chk c Hck Hf Hall; [lia|]. rewrite wt_loop_eq.
+    destruct chk as [|x chk0] eqn:Echk; [exists c; split; [lia | reflexivity]|]. rewrite <- Echk in *.
+    destruct (term_set term c); [exists c; split; [lia | reflexivity]|].
+    destruct (timed_out T c); [exists c; split; [lia | reflexivity]|].
+    destruct (Nat.eq_dec (S c) k) as [E | NE].
+    - subst k. rewrite (filter_nil_of_all_false (wt_keep v (S c)) chk).
+      + rewrite wt_loop_eq. exists (S c). split; [lia | reflexivity].
+      + intros tr Htr. destruct (Hall tr Htr) as [j [Hj Hk]].
+        assert (j = S c) by lia. subst j. exact Hk.
+    - destruct (IH (filter (wt_keep v (S c)) chk) (S c)) as [t [Ht H]]; [lia | lia | |].
+      + intros tr Htr. apply filter_In in Htr as [Htr Hkeep].
+        destruct (Hall tr Htr) as [j [Hj Hk]]. exists j. split; [|exact Hk].
+        assert (j <> S c) by (intro; subst j; rewrite Hkeep in Hk; discriminate). lia.
+      + exists t. split; [lia | exact H].
+  Qed.
+
+  (* every watched pilot is dropped at SOME poll j, c <= j <= k  ==>  the loop
+     is left by tick k+1 *)
+  Lemma wp_exit_each fuel states T term k : forall (chk : list traj) c,
+    c <= k -> S k - c <= fuel ->
+    (forall tr, In tr chk -> exists j, c <= j <= k /\ wp_keep states j tr = false) ->
+    exists t, c <= t <= S k /\ wp_loop fuel states T term chk c = Some t.
+  Proof.
+    induction fuel as [|f IH]; intros chk c Hck Hf Hall; [lia|]. rewrite wp_loop_eq.
+    destruct chk as [|x chk0] eqn:Echk; [exists c; split; [lia | reflexivity]|]. rewrite <- Echk in *.
+    destruct (term_set term c); [exists c; split; [lia | reflexivity]|]. cbv zeta.
+    destruct (Nat.eq_dec c k) as [E | NE].
+    - subst k. rewrite (filter_nil_of_all_false (wp_keep states c) chk).
+      + rewrite wp_loop_eq. exists (S c). split; [lia | reflexivity].
+      + intros tr Htr. destruct (Hall tr Htr) as [j [Hj Hk]].
+        assert (j = c) by lia. subst j. exact Hk.
+    - destruct (match filter (wp_keep states c) chk with [] => false | _ :: _ => timed_out T c end);
+        [exists c; split; [lia | reflexivity]|].
+      destruct (IH (filter (wp_keep states c) chk) (S c)) as [t [Ht H]]; [lia | lia | |].
+      + intros tr Htr. apply filter_In in Htr as [Htr Hkeep].
+        destruct (Hall tr Htr) as [j [Hj Hk]]. exists j. split; [|exact Hk].
+        assert (j <> c) by (intro; subst j; rewrite Hkeep in Hk; discriminate). lia.
+      + exists t. split; [lia | exact H].
+  Qed.
+
   (* ------------------------------------------------ manager-level calls *)
   Hypothesis final_ne : final <> [].
 
@@ -480,20 +551,23 @@ Section Proofs.
   Proof. unfold sat. rewrite forallb_forall. auto. Qed.
 
   (* the common part: from facts about the loop to the oracle clauses *)
-  Lemma manager_clauses (lst : bool) states T term (aw : list traj) (lr : option nat) :
+  Lemma manager_clauses (p0 : nat) (lst : bool) states T term (aw : list traj) (lr : option nat) :
     (lst = false -> exists tr, aw = [tr]) ->
     (forall k, k <= horizon aw ->
        sat seqb final states aw k = true -> sat seqb final states aw (S k) = true ->
+       exists t, t <= S k /\ lr = Some t) ->
+    (forall k, k <= S (horizon aw) ->
+       (forall tr, In tr aw -> exists j, p0 <= j <= k /\ sat1 states tr j = true) ->
        exists t, t <= S k /\ lr = Some t) ->
     (forall t0, T = Some (S t0) -> exists t, t <= S (S t0) /\ lr = Some t) ->
     (forall t, lr = Some t ->
        term_set term t = true \/ timed_out T t = true \/
        forall tr, In tr aw -> reached seqb final value states tr t = true) ->
-    clauses seqb final value lst states T term (Some aw)
+    clauses seqb final value p0 lst states T term (Some aw)
       (match lr with None => Spins | Some c => ret_states lst (states_at c aw) c end)
     = [true; true; true; true; true].
   Proof.
-    intros Hone F1 F2 F3.
+    intros Hone F1 F1b F2 F3.
     assert (Hret : forall c, exists v,
                ret_states lst (states_at c aw) c = Returned v c /\
                ok_truthful seqb lst aw (Returned v c) = true).
@@ -504,9 +578,12 @@ Section Proofs.
     unfold clauses.
     destruct lr as [c|].
     - destruct (Hret c) as [v [Hv Htr]]. rewrite Hv, Htr.
-      assert (E2 : ok_timely seqb final states aw (Returned v c) = true).
-      { apply ok_timely_intro. intros k Hk H1 H2.
-        destruct (F1 k Hk H1 H2) as [t [Ht E]]. injection E as <-. simpl. apply Nat.leb_le. exact Ht. }
+      assert (E2 : ok_timely seqb final p0 states aw (Returned v c) = true).
+      { apply ok_timely_intro.
+        - intros k Hk H1 H2.
+          destruct (F1 k Hk H1 H2) as [t [Ht E]]. injection E as <-. simpl. apply Nat.leb_le. exact Ht.
+        - intros k Hk Hall.
+          destruct (F1b k Hk Hall) as [t [Ht E]]. injection E as <-. simpl. apply Nat.leb_le. exact Ht. }
       assert (E3 : ok_timeout T (Returned v c) = true).
       { unfold ok_timeout. destruct T as [[|t0]|]; try reflexivity.
         destruct (F2 t0 eq_refl) as [t [Ht E]]. injection E as <-. simpl ret_by.
@@ -517,9 +594,10 @@ Section Proofs.
         - rewrite H. reflexivity.
         - apply orb_true_iff. right. apply forallb_forall. exact H. }
       rewrite E2, E3, E4. reflexivity.
-    - assert (E2 : ok_timely seqb final states aw Spins = true).
-      { apply ok_timely_intro. intros k Hk H1 H2.
-        destruct (F1 k Hk H1 H2) as [t [_ E]]. discriminate. }
+    - assert (E2 : ok_timely seqb final p0 states aw Spins = true).
+      { apply ok_timely_intro.
+        - intros k Hk H1 H2. destruct (F1 k Hk H1 H2) as [t [_ E]]. discriminate.
+        - intros k Hk Hall. destruct (F1b k Hk Hall) as [t [_ E]]. discriminate. }
       assert (E3 : ok_timeout T (@Spins state) = true).
       { unfold ok_timeout. destruct T as [[|t0]|]; try reflexivity.
         destruct (F2 t0 eq_refl) as [t [_ E]]. discriminate. }
@@ -574,7 +652,7 @@ Section Proofs.
     awaited_tasks tab u = Some aw ->
     horizon aw + 2 <= fuel ->
     (forall t0, T = Some t0 -> t0 + 2 <= fuel) ->
-    clauses seqb final value (as_list u) (norm final r) T term (Some aw)
+    clauses seqb final value 1 (as_list u) (norm final r) T term (Some aw)
             (wait_tasks seqb final value r T term fuel tab u) = [true; true; true; true; true].
   Proof.
     intros Ha Hfuel HT. destruct (check_val_some (norm final r)) as [v Hv].
@@ -589,6 +667,16 @@ Section Proofs.
       + destruct (wt_exit_by fuel v T term (S k') aw 0) as [t [Ht E]]; [lia | lia | |].
         * intros tr Htr. apply (wt_keep_false_of_sat _ _ _ _ Hv). apply (sat_forall _ _ _ H1 _ Htr).
         * exists t. split; [lia | exact E].
+    - (* per entity: every awaited task has shown a requested/final state at a poll 1..k *)
+      intros k Hk Hall. destruct aw as [|x aw0] eqn:Eaw.
+      { exists 0. split; [lia|]. rewrite wt_loop_eq. reflexivity. }
+      rewrite <- Eaw in *.
+      assert (Hk1 : 1 <= k).
+      { destruct (Hall x) as [j [Hj _]]; [rewrite Eaw; left; reflexivity | lia]. }
+      destruct (wt_exit_each fuel v T term k aw 0) as [t [Ht E]]; [lia | lia | |].
+      + intros tr Htr. destruct (Hall tr Htr) as [j [Hj Hs]]. exists j. split; [lia|].
+        apply (wt_keep_false_of_sat _ _ _ _ Hv). exact Hs.
+      + exists t. split; [lia | exact E].
     - intros t0 ->. specialize (HT _ eq_refl).
       destruct (wt_timeout fuel v term t0 aw 0) as [t [Ht E]]; [lia | lia |].
       exists t. split; [lia | exact E].
@@ -601,7 +689,7 @@ Section Proofs.
     awaited_pilots seqb final tab u = Some aw ->
     horizon aw + 2 <= fuel ->
     (forall t0, T = Some t0 -> t0 + 2 <= fuel) ->
-    clauses seqb final value (as_list u) (norm final r) T term (Some aw)
+    clauses seqb final value 0 (as_list u) (norm final r) T term (Some aw)
             (wait_pilots seqb final r T term fuel tab u) = [true; true; true; true; true].
   Proof.
     intros Ha Hfuel HT. rewrite (wait_pilots_unfold _ _ _ _ _ _ _ Ha).
@@ -610,6 +698,12 @@ Section Proofs.
     - intros k Hk H1 _.
       destruct (wp_exit_by fuel (norm final r) T term k aw 0) as [t [Ht E]]; [lia | lia | |].
       + intros tr Htr. apply wp_keep_false_iff. apply (sat_forall _ _ _ H1 _ Htr).
+      + exists t. split; [lia | exact E].
+    - (* per entity: every awaited pilot has shown a requested/final state at a poll 0..k *)
+      intros k Hk Hall.
+      destruct (wp_exit_each fuel (norm final r) T term k aw 0) as [t [Ht E]]; [lia | lia | |].
+      + intros tr Htr. destruct (Hall tr Htr) as [j [Hj Hs]]. exists j. split; [lia|].
+        apply wp_keep_false_iff. exact Hs.
       + exists t. split; [lia | exact E].
     - intros t0 ->. specialize (HT _ eq_refl).
       destruct (wp_timeout fuel (norm final r) term t0 aw 0) as [t [Ht E]]; [lia | lia |].
@@ -631,35 +725,41 @@ Section Proofs.
       simpl. apply seqb_refl.
   Qed.
 
-  (* all awaited tasks show a requested or final state at tick k >= 1
+  (* every awaited task HAS shown a requested or final state at some tick
+     1 <= j <= k (each at its own tick; it may have moved on since)
      ==> wait_tasks has returned by tick k, with their actual states *)
   Theorem wait_tasks_returns_by r T term fuel (tab : table) u (aw : list traj) k :
     awaited_tasks tab u = Some aw -> 1 <= k <= fuel ->
-    (forall tr, In tr aw -> mem (at_ tr k) (norm final r) || is_final (at_ tr k) = true) ->
+    (forall tr, In tr aw -> exists j, 1 <= j <= k /\
+        mem (at_ tr j) (norm final r) || is_final (at_ tr j) = true) ->
     exists v t, t <= k /\
       wait_tasks seqb final value r T term fuel tab u = Returned v t /\
       ok_truthful seqb (as_list u) aw (Returned v t) = true.
   Proof.
     intros Ha Hk Hall. destruct (check_val_some (norm final r)) as [cv Hv].
     rewrite (wait_tasks_unfold _ _ _ _ _ _ _ _ Ha Hv).
-    destruct (wt_exit_by fuel cv T term k aw 0) as [t [Ht E]]; [lia | lia | |].
-    - intros tr Htr. apply (wt_keep_false_of_sat _ _ _ _ Hv). apply Hall; exact Htr.
+    destruct (wt_exit_each fuel cv T term k aw 0) as [t [Ht E]]; [lia | lia | |].
+    - intros tr Htr. destruct (Hall tr Htr) as [j [Hj Hs]]. exists j. split; [lia|].
+      apply (wt_keep_false_of_sat _ _ _ _ Hv). exact Hs.
     - rewrite E. destruct (ret_states_ok (as_list u) aw t (awaited_one_tasks _ _ _ Ha)) as [v [H1 H2]].
       exists v, t. split; [lia|]. split; assumption.
   Qed.
 
-  (* all awaited pilots show a requested or final state at tick k
+  (* every awaited pilot HAS shown a requested or final state at some tick
+     j <= k (each at its own tick; it may have moved on since)
      ==> wait_pilots has returned by tick k+1, with their actual states *)
   Theorem wait_pilots_returns_by r T term fuel (tab : table) u (aw : list traj) k :
     awaited_pilots seqb final tab u = Some aw -> S k <= fuel ->
-    (forall tr, In tr aw -> mem (at_ tr k) (norm final r) || is_final (at_ tr k) = true) ->
+    (forall tr, In tr aw -> exists j, j <= k /\
+        mem (at_ tr j) (norm final r) || is_final (at_ tr j) = true) ->
     exists v t, t <= S k /\
       wait_pilots seqb final r T term fuel tab u = Returned v t /\
       ok_truthful seqb (as_list u) aw (Returned v t) = true.
   Proof.
     intros Ha Hk Hall. rewrite (wait_pilots_unfold _ _ _ _ _ _ _ Ha).
-    destruct (wp_exit_by fuel (norm final r) T term k aw 0) as [t [Ht E]]; [lia | lia | |].
-    - intros tr Htr. apply wp_keep_false_iff. apply Hall; exact Htr.
+    destruct (wp_exit_each fuel (norm final r) T term k aw 0) as [t [Ht E]]; [lia | lia | |].
+    - intros tr Htr. destruct (Hall tr Htr) as [j [Hj Hs]]. exists j. split; [lia|].
+      apply wp_keep_false_iff. exact Hs.
     - rewrite E. destruct (ret_states_ok (as_list u) aw t (awaited_one_pilots _ _ _ Ha)) as [v [H1 H2]].
       exists v, t. split; [lia|]. split; assumption.
   Qed.
